@@ -10,7 +10,7 @@ import subprocess, sys, os, json, re, shutil
 pid = sys.argv[1]
 src = sys.argv[2] if len(sys.argv) > 2 else f"/tmp/seed-{pid}"
 dest_name = sys.argv[3] if len(sys.argv) > 3 else pid
-WT = "/tmp/wt-verify"
+WT = os.environ.get("VERIFY_WT", "/tmp/wt-verify")
 ENV = dict(os.environ, RUSTUP_TOOLCHAIN="1.88.0", CARGO_NET_OFFLINE="true", CARGO_TARGET_DIR=f"{WT}/target")
 
 
